@@ -150,7 +150,7 @@ def event_kinds(impl_line):
             out.append(head + ":" + e.rsplit(" ", 1)[1])
         elif head == "req":
             out.append("req:h%s" % e.split(" ")[2])
-        elif head.startswith("a:") or head == "request":
+        elif head.startswith("a:") or head in ("request", "lent"):
             continue
         else:
             out.append(head)
